@@ -260,5 +260,6 @@ fn vmp_apply_dft_to_dft_core<const OVERWRITE: bool, REIM>(
         }
     }
 
-    REIM::reim_zero(&mut res[col_max * n..]);
+    // `col_max - limb_offset` output limbs were produced: everything after them is zero.
+    REIM::reim_zero(&mut res[(col_max - limb_offset) * n..]);
 }
